@@ -12,6 +12,10 @@ From PdfV Require Import Base.Prelude Gen.Generated Cache.Model Cache.Conc Cache
     Cache/Proofs.v (property C12): what get::<ty>(r) returns when it runs alone. *)
 Definition call_ans (seq : tytag -> ref -> outcome) (cl : tcall) : outcome := seq (fst cl) (snd cl).
 
+(** the answer of a program item: a lazy cell answers what the typed get of the reference it holds answers *)
+Definition lazy_seq (cells : N -> tcall) (seq : tytag -> ref -> outcome) : tytag -> ref -> outcome :=
+  fun ty r => if ty =? LAZY then seq (fst (cells r)) (snd (cells r)) else seq ty r.
+
 Definition prefix_ok (seq : tytag -> ref -> outcome) (calls : list tcall) (res : list outcome) : Prop :=
   exists k, res = map (call_ans seq) (firstn k calls).
 
@@ -21,8 +25,9 @@ Definition state_ok (c : ccfg) (seq : tytag -> ref -> outcome) (progs : list (li
   (forall t, finished g t = true -> results (threads g t) = map (call_ans seq) (nth t progs [])) /\
   deadlocked c g (length progs) = false.
 
-Definition conc_statement (c : ccfg) (prog : tytag -> ref -> comp) (seq : tytag -> ref -> outcome) : Prop :=
-  forall progs sched, state_ok c seq progs (run_sched c prog (ginit progs) sched).
+Definition conc_statement (c : ccfg) (prog : tytag -> ref -> comp) (cells : N -> tcall)
+           (seq : tytag -> ref -> outcome) : Prop :=
+  forall progs sched, state_ok c seq progs (run_sched c prog cells (ginit cells progs) sched).
 
 (** * generic list facts *)
 
@@ -68,10 +73,29 @@ Proof.
   apply in_seq in Hi. lia.
 Qed.
 
+(** * the once-cells of the lazily loaded references: exactly one publication per cell
+
+    A cell changes only along  Empty -> Init t -> Full / Empty  (top_done, start): it is never overwritten once
+    it is full — in every step of every thread, whatever the state (no invariant needed). *)
+Lemma start_keeps_full cells t : forall td res cs th' cs' i o,
+  start cells t td res cs = (th', cs') -> cs i = CFull o -> cs' i = CFull o.
+Proof.
+  induction td as [|[ty r] rest IH]; intros res cs th' cs' i o Hs Hi; cbn [start] in Hs.
+  - inversion Hs; subst. exact Hi.
+  - destruct (ty =? LAZY).
+    + destruct (cs r) as [|t2|o2] eqn:Ecs.
+      * inversion Hs; subst. unfold updN. destruct (N.eqb_spec i r) as [->|Hn]; [|exact Hi].
+        rewrite Hi in Ecs. discriminate Ecs.
+      * inversion Hs; subst. exact Hi.
+      * exact (IH _ _ _ _ _ _ Hs Hi).
+    + inversion Hs; subst. exact Hi.
+Qed.
+
 (** * the invariant of the fixed guard on an acyclic document *)
 Section Safe.
   Variable c : ccfg.
   Variable prog : tytag -> ref -> comp.
+  Variable cells : N -> tcall.
   Variable rank : ref -> nat.
   Hypothesis Hpt : per_thread c = true.
   Hypothesis Hac : acyclic prog rank.
@@ -80,19 +104,26 @@ Section Safe.
   Notation D := (Proofs.D prog rank).
   Notation evD := (evalD prog rank).
   Notation bnd := (bounded rank).
-  Notation Dc := (call_ans D).
+  Notation Dc := (call_ans (lazy_seq cells D)).
+  Notation Dcell := (fun i : N => D (fst (cells i)) (snd (cells i))).
 
   Lemma D_eval ty r : D ty r = evD (prog ty r).
   Proof. apply cache_D_unfold. exact Hac. Qed.
 
-  (* the frames below a frame of the call get::<cty>(child), down to the top-level call [bot] *)
-  Fixpoint lower_ok (child : ref) (cty : tytag) (st : list frame) (bot : tcall) : Prop :=
+  Lemma Dc_lazy ty i : (ty =? LAZY) = true -> Dc (ty, i) = Dcell i.
+  Proof. intros H. unfold call_ans, lazy_seq. cbn [fst snd]. rewrite H. reflexivity. Qed.
+
+  Lemma Dc_plain ty r : (ty =? LAZY) = false -> Dc (ty, r) = D ty r.
+  Proof. intros H. unfold call_ans, lazy_seq. cbn [fst snd]. rewrite H. reflexivity. Qed.
+
+  (* the frames below a frame of the call get::<cty>(child), down to the top-level call, whose answer is [ob] *)
+  Fixpoint lower_ok (child : ref) (cty : tytag) (st : list frame) (ob : outcome) : Prop :=
     match st with
-    | [] => (cty, child) = bot
+    | [] => D cty child = ob
     | (r, ty, p) :: rest =>
         match p with
         | InCall _ k => (rank child < rank r)%nat /\ (forall o, bnd (rank r) (k o)) /\
-                      evD (k (D cty child)) = D ty r /\ lower_ok r ty rest bot
+                      evD (k (D cty child)) = D ty r /\ lower_ok r ty rest ob
         | _ => False
         end
     end.
@@ -109,13 +140,17 @@ Section Safe.
 
   Definition pushed (p : pc) : bool := match p with AtEnter => false | _ => true end.
 
-  Definition thread_ok (calls : list tcall) (th : thread) (ch : list ref) : Prop :=
+  (* thread t: no open call (finished, or in front of a lazy cell another thread initialises, or not started):
+     nothing pushed, initialiser of nothing; an open call: its answer will be [ob]; if it is the load of a lazy
+     cell, the cell is marked as being initialised by t *)
+  Definition thread_ok (t : tid) (calls : list tcall) (th : thread) (ch : list ref) (cs : N -> cstate) : Prop :=
     match stack th with
-    | [] => todo th = [] /\ results th = map Dc calls /\ ch = []
+    | [] => results th ++ map Dc (todo th) = map Dc calls /\ ch = [] /\ lazy th = None
     | (r, ty, p) :: rest =>
-        exists bot, top_ok p r ty /\ lower_ok r ty rest bot /\
-          results th ++ Dc bot :: map Dc (todo th) = map Dc calls /\
-          ch = rev (map fref rest) ++ (if pushed p then [r] else [])
+        exists ob, top_ok p r ty /\ lower_ok r ty rest ob /\
+          results th ++ ob :: map Dc (todo th) = map Dc calls /\
+          ch = rev (map fref rest) ++ (if pushed p then [r] else []) /\
+          (forall i, lazy th = Some i -> cs i = CInit t /\ ob = Dcell i)
     end.
 
   (* the frames that have to publish an entry: the compute closure, not the uncached re-load *)
@@ -127,31 +162,35 @@ Section Safe.
     inv_ab : aborted g = false;
     inv_po : forall rs, poisoned g rs = false;
     inv_ca : forall r ty o, cache g r = Some (Computed ty o) -> o = D ty r;
-    inv_th : forall t, thread_ok (nth t progs []) (threads g t) (chains g (res_of c t) (tkey c t));
+    inv_th : forall t, thread_ok t (nth t progs []) (threads g t) (chains g (res_of c t) (tkey c t)) (cellst g);
     inv_ow : forall r, cache g r = Some InProcess ->
-                       cache_on c = true /\ exists t, owns (stack (threads g t)) r
+                       cache_on c = true /\ exists t, owns (stack (threads g t)) r;
+    (* the once-cells: what is published is the sequential answer of the cell; a cell that is being
+       initialised has exactly the initialiser recorded in it, and that thread is inside the cell's load *)
+    inv_cf : forall i o, cellst g i = CFull o -> o = Dcell i;
+    inv_ci : forall i t, cellst g i = CInit t -> stack (threads g t) <> [] /\ lazy (threads g t) = Some i
   }.
 
-  Lemma lower_rank : forall rest r ty bot x,
-    lower_ok r ty rest bot -> In x (map fref rest) -> (rank r < rank x)%nat.
+  Lemma lower_rank : forall rest r ty ob x,
+    lower_ok r ty rest ob -> In x (map fref rest) -> (rank r < rank x)%nat.
   Proof.
-    induction rest as [|[[r1 ty1] p1] rest IH]; intros r ty bot x H Hin; cbn [map In fref fst lower_ok] in *; [contradiction|].
+    induction rest as [|[[r1 ty1] p1] rest IH]; intros r ty ob x H Hin; cbn [map In fref fst lower_ok] in *; [contradiction|].
     destruct p1; try contradiction.
     destruct H as (H1 & _ & _ & H4).
     destruct Hin as [<-|Hin]; [exact H1|].
     specialize (IH _ _ _ _ H4 Hin). lia.
   Qed.
 
-  Lemma not_in_chain r ty rest bot : lower_ok r ty rest bot -> memN r (rev (map fref rest)) = false.
+  Lemma not_in_chain r ty rest ob : lower_ok r ty rest ob -> memN r (rev (map fref rest)) = false.
   Proof.
     intros H. destruct (memN r (rev (map fref rest))) eqn:E; [|reflexivity].
     apply memN_In in E. apply in_rev in E. apply (lower_rank _ _ _ _ _ H) in E. lia.
   Qed.
 
-  Lemma advance_ok fb r ty p rest bot :
-    bnd (rank r) p -> evD p = D ty r -> lower_ok r ty rest bot ->
+  Lemma advance_ok fb r ty p rest ob :
+    bnd (rank r) p -> evD p = D ty r -> lower_ok r ty rest ob ->
     exists r2 ty2 p2 rest2, advance c fb r ty p rest = (r2, ty2, p2) :: rest2 /\ top_ok p2 r2 ty2 /\
-      lower_ok r2 ty2 rest2 bot /\
+      lower_ok r2 ty2 rest2 ob /\
       rev (map fref rest2) ++ (if pushed p2 then [r2] else []) = rev (map fref rest) ++ [r].
   Proof.
     intros Hb He Hl. destruct p as [o|ty' r' k]; cbn [advance].
@@ -183,6 +222,12 @@ Section Safe.
     intros H. destruct p as [o|ty' r' k]; cbn [advance]; repeat apply owns_cons; exact H.
   Qed.
 
+  Lemma owns_nil x : ~ owns [] x.
+  Proof. intros (ty & p & Hi & _). destruct Hi. Qed.
+
+  Lemma advance_nonempty fb r ty p rest : advance c fb r ty p rest <> [].
+  Proof. destruct p; cbn [advance]; discriminate. Qed.
+
   Lemma chain_frame (ch : N -> N -> list ref) t t' x : t' <> t ->
     updN ch (res_of c t) (updN (ch (res_of c t)) (tkey c t) x) (res_of c t') (tkey c t') =
     ch (res_of c t') (tkey c t').
@@ -204,23 +249,56 @@ Section Safe.
   Proof. intros H. unfold upd. apply Nat.eqb_neq in H. rewrite H. reflexivity. Qed.
 
   (* rebuilding the invariant after thread t moved *)
-  Lemma Inv_update g t th' chains' cache' :
+  Lemma Inv_update g t th' chains' cache' cs' :
     Inv g ->
     (forall t', t' <> t -> chains' (res_of c t') (tkey c t') = chains g (res_of c t') (tkey c t')) ->
-    thread_ok (nth t progs []) th' (chains' (res_of c t) (tkey c t)) ->
+    thread_ok t (nth t progs []) th' (chains' (res_of c t) (tkey c t)) cs' ->
     (forall r ty o, cache' r = Some (Computed ty o) -> o = D ty r) ->
     (forall r, cache' r = Some InProcess ->
                cache_on c = true /\ exists t2, owns (stack (upd (threads g) t th' t2)) r) ->
-    Inv (mkG chains' (poisoned g) cache' (upd (threads g) t th') (aborted g)).
+    (forall i o, cs' i = CFull o -> o = Dcell i) ->
+    (forall i t2, cs' i = CInit t2 ->
+                  stack (upd (threads g) t th' t2) <> [] /\ lazy (upd (threads g) t th' t2) = Some i) ->
+    (forall t' i, t' <> t -> cellst g i = CInit t' -> cs' i = CInit t') ->
+    Inv (mkG chains' (poisoned g) cache' (upd (threads g) t th') (aborted g) cs').
   Proof.
-    intros HI Hfr Hth Hca How. constructor; cbn [aborted poisoned cache threads chains].
+    intros HI Hfr Hth Hca How Hcf Hci Hoth.
+    constructor; cbn [aborted poisoned cache threads chains cellst].
     - apply HI.
     - apply HI.
     - exact Hca.
     - intros t'. destruct (Nat.eq_dec t' t) as [->|Hne].
       + rewrite upd_same. exact Hth.
-      + rewrite upd_other by exact Hne. rewrite Hfr by exact Hne. apply HI.
+      + rewrite upd_other by exact Hne. rewrite Hfr by exact Hne.
+        pose proof (inv_th g HI t') as H. unfold thread_ok in H |- *.
+        destruct (stack (threads g t')) as [|[[r ty] p] rest]; [exact H|].
+        destruct H as (ob & H1 & H2 & H3 & H4 & H5). exists ob. repeat split; try assumption.
+        * apply Hoth; [exact Hne|]. apply (H5 i H).
+        * apply (H5 i H).
     - exact How.
+    - exact Hcf.
+    - exact Hci.
+  Qed.
+
+  (* ... when the cells are untouched and t stays inside its open call *)
+  Lemma Inv_update_same g t th' chains' cache' :
+    Inv g ->
+    stack (threads g t) <> [] -> stack th' <> [] -> lazy th' = lazy (threads g t) ->
+    (forall t', t' <> t -> chains' (res_of c t') (tkey c t') = chains g (res_of c t') (tkey c t')) ->
+    thread_ok t (nth t progs []) th' (chains' (res_of c t) (tkey c t)) (cellst g) ->
+    (forall r ty o, cache' r = Some (Computed ty o) -> o = D ty r) ->
+    (forall r, cache' r = Some InProcess ->
+               cache_on c = true /\ exists t2, owns (stack (upd (threads g) t th' t2)) r) ->
+    Inv (mkG chains' (poisoned g) cache' (upd (threads g) t th') (aborted g) (cellst g)).
+  Proof.
+    intros HI Hne Hne' Hlz Hfr Hth Hca How.
+    apply Inv_update; try assumption.
+    - apply HI.
+    - intros i t2 Hi. destruct (inv_ci g HI i t2 Hi) as [Hs Hl].
+      destruct (Nat.eq_dec t2 t) as [->|Hn2].
+      + rewrite upd_same. split; [exact Hne'|]. rewrite Hlz. exact Hl.
+      + rewrite upd_other by exact Hn2. auto.
+    - auto.
   Qed.
 
   (* the owners when the cache is unchanged and the mover keeps what it owns *)
@@ -236,158 +314,287 @@ Section Safe.
     - rewrite upd_other by exact Hne. exact Ho.
   Qed.
 
-  Lemma owns_nil x : ~ owns [] x.
-  Proof. intros (ty & p & Hi & _). destruct Hi. Qed.
+  (** the once-cell protocol: what [start] does *)
+  Lemma start_spec t : forall td res cs th' cs' tot,
+    start cells t td res cs = (th', cs') ->
+    res ++ map Dc td = tot ->
+    (forall i o, cs i = CFull o -> o = Dcell i) ->
+    (stack th' = [] /\ lazy th' = None /\ cs' = cs /\
+     results th' ++ map Dc (todo th') = tot) \/
+    (exists r ty, stack th' = [(r, ty, AtEnter)] /\
+       results th' ++ D ty r :: map Dc (todo th') = tot /\
+       ((lazy th' = None /\ cs' = cs) \/
+        (exists i, lazy th' = Some i /\ cs i = CEmpty /\ cs' = updN cs i (CInit t) /\ D ty r = Dcell i))).
+  Proof.
+    induction td as [|[ty r] rest IH]; intros res cs th' cs' tot Hs Htot Hcf; cbn [start] in Hs.
+    - inversion Hs; subst. left. cbn [stack lazy results todo map]. auto.
+    - assert (Hhead : Dc (ty, r) = if ty =? LAZY then Dcell r else D ty r) by reflexivity.
+      cbn [map] in Htot. rewrite Hhead in Htot. clear Hhead.
+      destruct (ty =? LAZY) eqn:Ety.
+      + destruct (cs r) as [|t2|o] eqn:Ecs.
+        * inversion Hs; subst. right. exists (snd (cells r)), (fst (cells r)).
+          cbn [stack lazy results todo]. split; [reflexivity|]. split; [reflexivity|].
+          right. exists r. auto.
+        * inversion Hs; subst. left. cbn [stack lazy results todo map].
+          split; [reflexivity|]. split; [reflexivity|]. split; [reflexivity|].
+          assert (Hhead : Dc (ty, r) = if ty =? LAZY then Dcell r else D ty r) by reflexivity.
+          rewrite Hhead, Ety. reflexivity.
+        * apply (IH (res ++ [o]) cs th' cs' tot Hs); [|exact Hcf].
+          rewrite <- Htot, <- (Hcf r o Ecs), <- app_assoc. reflexivity.
+      + inversion Hs; subst. right. exists r, ty. cbn [stack lazy results todo].
+        split; [reflexivity|]. split; [reflexivity|]. left. auto.
+  Qed.
 
-  Lemma step_inv g t : Inv g -> Inv (step c prog g t).
+  (* thread t, which has no open call in g (or is leaving its last frame: it owns no cache entry), goes on *)
+  Lemma Inv_start g t chains' td res cs0 th' cs' :
+    Inv g ->
+    start cells t td res cs0 = (th', cs') ->
+    (forall t', t' <> t -> chains' (res_of c t') (tkey c t') = chains g (res_of c t') (tkey c t')) ->
+    chains' (res_of c t) (tkey c t) = [] ->
+    res ++ map Dc td = map Dc (nth t progs []) ->
+    (forall x, ~ owns (stack (threads g t)) x) ->
+    (forall i o, cs0 i = CFull o -> o = Dcell i) ->
+    (forall i t2, cs0 i = CInit t2 -> t2 <> t /\ cellst g i = CInit t2) ->
+    (forall t' i, t' <> t -> cellst g i = CInit t' -> cs0 i = CInit t') ->
+    Inv (mkG chains' (poisoned g) (cache g) (upd (threads g) t th') (aborted g) cs').
+  Proof.
+    intros HI Hs Hfr Hch Hres Hno Hcf Hci Hoth.
+    assert (How : forall r, cache g r = Some InProcess ->
+                   cache_on c = true /\ exists t2, owns (stack (upd (threads g) t th' t2)) r).
+    { intros r Hr. destruct (inv_ow g HI r Hr) as (Hc & t2 & Ho). split; [exact Hc|]. exists t2.
+      destruct (Nat.eq_dec t2 t) as [->|Hne]; [exfalso; exact (Hno r Ho)|].
+      rewrite upd_other by exact Hne. exact Ho. }
+    destruct (start_spec t td res cs0 th' cs' _ Hs Hres Hcf) as [(Hst & Hlz & Ecs & Hr)|(r & ty & Hst & Hr & Hk)].
+    - subst cs'. apply Inv_update; try assumption.
+      + unfold thread_ok. rewrite Hst, Hch. auto.
+      + apply HI.
+      + intros i t2 Hi. destruct (Hci i t2 Hi) as [Hn Hg]. rewrite upd_other by exact Hn.
+        exact (inv_ci g HI i t2 Hg).
+    - destruct Hk as [[Hlz Ecs]|(i & Hlz & Hemp & Ecs & Hdi)].
+      + subst cs'. apply Inv_update; try assumption.
+        * unfold thread_ok. rewrite Hst, Hch. exists (D ty r). cbn [top_ok lower_ok pushed map rev app].
+          split; [exact I|]. split; [reflexivity|]. split; [exact Hr|]. split; [reflexivity|].
+          intros i Hi; rewrite Hlz in Hi; discriminate Hi.
+        * apply HI.
+        * intros i t2 Hi. destruct (Hci i t2 Hi) as [Hn Hg]. rewrite upd_other by exact Hn.
+          exact (inv_ci g HI i t2 Hg).
+      + subst cs'. apply Inv_update; try assumption.
+        * unfold thread_ok. rewrite Hst, Hch. exists (D ty r). cbn [top_ok lower_ok pushed map rev app].
+          split; [exact I|]. split; [reflexivity|]. split; [exact Hr|]. split; [reflexivity|].
+          intros i' Hi'; rewrite Hlz in Hi'; injection Hi' as <-. split.
+          -- unfold updN. rewrite N.eqb_refl. reflexivity.
+          -- exact Hdi.
+        * apply HI.
+        * intros i' o. unfold updN. destruct (i' =? i); [discriminate|]. apply Hcf.
+        * intros i' t2. unfold updN. destruct (N.eqb_spec i' i) as [->|Hn].
+          -- intros E. injection E as <-. rewrite upd_same, Hst, Hlz. split; [discriminate|reflexivity].
+          -- intros Hi. destruct (Hci i' t2 Hi) as [Hn2 Hg]. rewrite upd_other by exact Hn2.
+             exact (inv_ci g HI i' t2 Hg).
+        * intros t' i' Hne Hg. unfold updN. destruct (N.eqb_spec i' i) as [->|Hn]; [|auto].
+          rewrite (Hoth t' i Hne Hg) in Hemp. discriminate Hemp.
+  Qed.
+
+  Lemma start_next_inv g t : Inv g -> Inv (start_next cells g t).
+  Proof.
+    intros HI. unfold start_next.
+    pose proof (inv_th g HI t) as Hth. unfold thread_ok in Hth.
+    destruct (stack (threads g t)) as [|f st] eqn:Hst; [|exact HI].
+    destruct Hth as (Hres & Hch & Hlz).
+    destruct (start cells t (todo (threads g t)) (results (threads g t)) (cellst g)) as [th' cs'] eqn:Hs.
+    unfold set_cells, set_thread; cbn [chains poisoned cache threads aborted cellst].
+    apply (Inv_start g t (chains g) _ _ (cellst g) th' cs' HI Hs); auto.
+    - intros x Ho. rewrite Hst in Ho. exact (owns_nil x Ho).
+    - apply HI.
+    - intros i t2 Hi. split; [|exact Hi]. intros ->.
+      destruct (inv_ci g HI i t Hi) as [Hne _]. apply Hne. exact Hst.
+  Qed.
+
+  Lemma step_inv g t : Inv g -> Inv (step c prog cells g t).
   Proof.
     intros HI. unfold step, step_gen. rewrite (inv_ab g HI).
-    destruct (stack (threads g t)) as [|[[r ty] p] rest] eqn:Hst; [exact HI|].
+    destruct (stack (threads g t)) as [|[[r ty] p] rest] eqn:Hst.
+    { (* no open call: in front of a lazy cell (or finished) *)
+      pose proof (start_next_inv g t HI) as H. unfold start_next in H |- *. rewrite Hst in H |- *. exact H. }
     pose proof (inv_th g HI t) as Hth. unfold thread_ok in Hth. rewrite Hst in Hth.
-    destruct Hth as (bot & Htop & Hlow & Hres & Hch).
+    destruct Hth as (bot & Htop & Hlow & Hres & Hch & Hlz).
+    assert (Hne : stack (threads g t) <> []) by (rewrite Hst; discriminate).
     cbv zeta. rewrite (inv_po g HI).
-    (* the uncached re-load of this frame (a cached error of any kind, or a value of another type, was found) *)
     destruct p as [| |fb k|o|o|ty' o|o]; cbn [pushed top_ok] in Htop, Hch.
     - (* AtEnter: push *)
       rewrite app_nil_r in Hch. rewrite Hch, (not_in_chain _ _ _ _ Hlow).
-      unfold set_thread, set_chain; cbn [chains poisoned cache threads aborted].
-      apply Inv_update.
-      + exact HI.
-      + intros t' Hne. apply chain_frame. exact Hne.
-      + rewrite chain_self. unfold thread_ok; cbn [stack todo results].
-        exists bot. cbn [top_ok pushed]. auto.
+      unfold set_thread, set_chain; cbn [chains poisoned cache threads aborted cellst].
+      apply Inv_update_same; try assumption; try discriminate; try reflexivity.
+      + intros t' Hn. apply chain_frame. exact Hn.
+      + rewrite chain_self. unfold thread_ok; cbn [stack todo results lazy].
+        exists bot. cbn [top_ok pushed]. auto 10.
       + apply HI.
       + apply owners_keep; [exact HI|]. intros x _ Ho. rewrite Hst in Ho. cbn [stack].
         apply owns_cons. apply (owns_tail _ _ _ _ _ Ho). left; reflexivity.
     - (* AtPushed *)
       destruct (advance_ok false r ty (prog ty r) rest bot (Hac ty r) (eq_sym (D_eval ty r)) Hlow)
         as (r2 & ty2 & p2 & rest2 & Ea & Ht2 & Hl2 & Hc2).
-      assert (Hthk : thread_ok (nth t progs [])
-                (mkThread (advance c false r ty (prog ty r) rest) (todo (threads g t)) (results (threads g t)))
-                (chains g (res_of c t) (tkey c t))).
-      { unfold thread_ok; cbn [stack todo results]. rewrite Ea. exists bot.
-        rewrite Hc2. auto. }
+      assert (Hthk : thread_ok t (nth t progs [])
+                (mkThread (advance c false r ty (prog ty r) rest) (todo (threads g t)) (results (threads g t))
+                          (lazy (threads g t)))
+                (chains g (res_of c t) (tkey c t)) (cellst g)).
+      { unfold thread_ok; cbn [stack todo results lazy]. rewrite Ea. exists bot.
+        rewrite Hc2. auto 10. }
       destruct (cache_on c) eqn:Hc.
       + destruct (cache g r) as [[|ty' o]|] eqn:Hcr.
         * exact HI.
-        * unfold set_thread; cbn [chains poisoned cache threads aborted].
-          apply Inv_update.
-          -- exact HI.
-          -- reflexivity.
-          -- unfold thread_ok; cbn [stack todo results]. exists bot. cbn [top_ok pushed].
-             pose proof (inv_ca g HI _ _ _ Hcr). auto.
+        * unfold set_thread; cbn [chains poisoned cache threads aborted cellst].
+          apply Inv_update_same; try assumption; try discriminate; try reflexivity.
+          -- unfold thread_ok; cbn [stack todo results lazy]. exists bot. cbn [top_ok pushed].
+             pose proof (inv_ca g HI _ _ _ Hcr). auto 10.
           -- apply HI.
           -- apply owners_keep; [exact HI|]. intros x _ Ho. rewrite Hst in Ho. cbn [stack].
              apply owns_cons. apply (owns_tail _ _ _ _ _ Ho). left; reflexivity.
-        * unfold set_thread, set_cache; cbn [chains poisoned cache threads aborted].
-          apply Inv_update.
-          -- exact HI.
-          -- reflexivity.
-          -- exact Hthk.
+        * unfold set_thread, set_cache; cbn [chains poisoned cache threads aborted cellst].
+          apply Inv_update_same; try assumption; try reflexivity.
+          -- cbn [stack]. apply advance_nonempty.
           -- intros x tyx o Hx. unfold updN in Hx. destruct (x =? r); [discriminate Hx|].
              exact (inv_ca g HI _ _ _ Hx).
           -- intros x Hx. split; [exact Hc|]. unfold updN in Hx.
-             destruct (N.eqb_spec x r) as [Exr|Hne]; [subst x|].
+             destruct (N.eqb_spec x r) as [Exr|Hnx]; [subst x|].
              ++ exists t. rewrite upd_same. cbn [stack]. apply owns_advance. exact Hc.
              ++ destruct (inv_ow g HI x Hx) as (_ & t2 & Ho). exists t2.
                 destruct (Nat.eq_dec t2 t) as [->|Hne2];
                   [rewrite upd_same|rewrite upd_other by exact Hne2; exact Ho].
                 cbn [stack]. rewrite Hst in Ho. apply owns_advance_rest.
                 apply (owns_tail _ _ _ _ _ Ho). left; reflexivity.
-      + unfold set_thread; cbn [chains poisoned cache threads aborted].
-        apply Inv_update.
-        * exact HI.
-        * reflexivity.
-        * exact Hthk.
+      + unfold set_thread; cbn [chains poisoned cache threads aborted cellst].
+        apply Inv_update_same; try assumption; try reflexivity.
+        * cbn [stack]. apply advance_nonempty.
         * apply HI.
         * apply owners_keep; [exact HI|]. intros x _ Ho. rewrite Hst in Ho. cbn [stack].
           apply owns_advance_rest. apply (owns_tail _ _ _ _ _ Ho). left; reflexivity.
     - (* InCall *) exact HI.
     - (* AtPublish *)
-      unfold set_thread, set_cache; cbn [chains poisoned cache threads aborted].
-      apply Inv_update.
-      + exact HI.
-      + reflexivity.
-      + unfold thread_ok; cbn [stack todo results]. exists bot. cbn [top_ok pushed]. auto.
-      + intros x tyx o' Hx. unfold updN in Hx. destruct (N.eqb_spec x r) as [Exr|Hne]; [subst x|].
+      unfold set_thread, set_cache; cbn [chains poisoned cache threads aborted cellst].
+      apply Inv_update_same; try assumption; try discriminate; try reflexivity.
+      + unfold thread_ok; cbn [stack todo results lazy]. exists bot. cbn [top_ok pushed]. auto 10.
+      + intros x tyx o' Hx. unfold updN in Hx. destruct (N.eqb_spec x r) as [Exr|Hnx]; [subst x|].
         * injection Hx as <- <-. exact Htop.
         * exact (inv_ca g HI _ _ _ Hx).
-      + intros x Hx. unfold updN in Hx. destruct (N.eqb_spec x r) as [Exr|Hne]; [subst x|]; [discriminate Hx|].
+      + intros x Hx. unfold updN in Hx. destruct (N.eqb_spec x r) as [Exr|Hnx]; [subst x|]; [discriminate Hx|].
         destruct (inv_ow g HI x Hx) as (Hcc & t2 & Ho). split; [exact Hcc|]. exists t2.
         destruct (Nat.eq_dec t2 t) as [->|Hne2];
           [rewrite upd_same|rewrite upd_other by exact Hne2; exact Ho].
         cbn [stack]. rewrite Hst in Ho. apply owns_cons.
-        apply (owns_tail _ _ _ _ _ Ho). right; exact Hne.
+        apply (owns_tail _ _ _ _ _ Ho). right; exact Hnx.
     - (* AtCached *)
-      unfold set_thread; cbn [chains poisoned cache threads aborted].
-      apply Inv_update.
-      + exact HI.
-      + reflexivity.
-      + unfold thread_ok; cbn [stack todo results]. exists bot. cbn [top_ok pushed]. auto.
+      unfold set_thread; cbn [chains poisoned cache threads aborted cellst].
+      apply Inv_update_same; try assumption; try discriminate; try reflexivity.
+      + unfold thread_ok; cbn [stack todo results lazy]. exists bot. cbn [top_ok pushed]. auto 10.
       + apply HI.
       + apply owners_keep; [exact HI|]. intros x _ Ho. rewrite Hst in Ho. cbn [stack].
         apply owns_cons. apply (owns_tail _ _ _ _ _ Ho). left; reflexivity.
     - (* AtHit: served only if it is a value of the requested type; otherwise the load is repeated uncached *)
       assert (Hreload : Inv (set_thread g t (mkThread (advance c true r ty (prog ty r) rest) (todo (threads g t))
-                                                      (results (threads g t))))).
+                                                      (results (threads g t)) (lazy (threads g t))))).
       { destruct (advance_ok true r ty (prog ty r) rest bot (Hac ty r) (eq_sym (D_eval ty r)) Hlow)
           as (r2 & ty2 & p2 & rest2 & Ea & Ht2 & Hl2 & Hc2).
-        unfold set_thread; cbn [chains poisoned cache threads aborted].
-        apply Inv_update.
-        + exact HI.
-        + reflexivity.
-        + unfold thread_ok; cbn [stack todo results]. rewrite Ea. exists bot. rewrite Hc2. auto.
+        unfold set_thread; cbn [chains poisoned cache threads aborted cellst].
+        apply Inv_update_same; try assumption; try reflexivity.
+        + cbn [stack]. apply advance_nonempty.
+        + unfold thread_ok; cbn [stack todo results lazy]. rewrite Ea. exists bot. rewrite Hc2. auto 10.
         + apply HI.
         + apply owners_keep; [exact HI|]. intros x _ Ho. rewrite Hst in Ho. cbn [stack].
           apply owns_advance_rest. apply (owns_tail _ _ _ _ _ Ho). left; reflexivity. }
       destruct o as [v|e|s|]; try exact Hreload.
-      destruct (N.eqb_spec ty' ty) as [Ety|Hne]; [subst ty'|exact Hreload].
-      unfold set_thread; cbn [chains poisoned cache threads aborted].
-      apply Inv_update.
-      + exact HI.
-      + reflexivity.
-      + unfold thread_ok; cbn [stack todo results]. exists bot. cbn [top_ok pushed]. auto.
+      destruct (N.eqb_spec ty' ty) as [Ety|Hnty]; [subst ty'|exact Hreload].
+      unfold set_thread; cbn [chains poisoned cache threads aborted cellst].
+      apply Inv_update_same; try assumption; try discriminate; try reflexivity.
+      + unfold thread_ok; cbn [stack todo results lazy]. exists bot. cbn [top_ok pushed]. auto 10.
       + apply HI.
       + apply owners_keep; [exact HI|]. intros x _ Ho. rewrite Hst in Ho. cbn [stack].
         apply owns_cons. apply (owns_tail _ _ _ _ _ Ho). left; reflexivity.
     - (* AtLeave: pop *)
       rewrite Hch, split_last_app, N.eqb_refl.
-      unfold set_thread, set_chain; cbn [chains poisoned cache threads aborted].
       destruct rest as [|[[r' ty'] p'] rest'].
-      + cbn [lower_ok] in Hlow. subst bot. subst o. cbn [return_to].
-        apply Inv_update.
-        * exact HI.
-        * intros t' Hne. apply chain_frame. exact Hne.
-        * rewrite chain_self. cbn [map rev].
-          destruct (todo (threads g t)) as [|[ty1 r1] todo'] eqn:Htd;
-            unfold next_call, thread_ok; cbn [stack todo results].
-          -- cbn [map] in Hres. auto.
-          -- exists (ty1, r1). cbn [top_ok lower_ok pushed map rev app].
-             rewrite <- app_assoc. cbn [app map] in Hres |- *. auto.
-        * apply HI.
-        * apply owners_keep; [exact HI|]. intros x _ Ho. rewrite Hst in Ho.
-          exfalso. apply (owns_nil x). apply (owns_tail _ _ _ _ _ Ho). left; reflexivity.
+      + (* the top-level call is done: a lazy cell is published (or left empty), the thread goes on *)
+        cbn [lower_ok] in Hlow. subst o. cbn [finish]. unfold top_done.
+        cbn [set_chain threads cellst].
+        set (cs0 := match lazy (threads g t) with
+                    | Some i => updN (cellst g) i (match D ty r with Ok _ => CFull (D ty r) | _ => CEmpty end)
+                    | None => cellst g
+                    end).
+        destruct (start cells t (todo (threads g t)) (results (threads g t) ++ [D ty r]) cs0) as [th' cs'] eqn:Hs.
+        unfold set_cells, set_thread, set_chain; cbn [chains poisoned cache threads aborted cellst].
+        apply (Inv_start g t _ _ _ cs0 th' cs' HI Hs).
+        * intros t' Hn. apply chain_frame. exact Hn.
+        * rewrite chain_self. reflexivity.
+        * rewrite <- app_assoc. cbn [app]. rewrite Hlow. exact Hres.
+        * intros x Ho. rewrite Hst in Ho. apply (owns_nil x). apply (owns_tail _ _ _ _ _ Ho). left; reflexivity.
+        * unfold cs0. destruct (lazy (threads g t)) as [i|] eqn:El; [|apply HI].
+          intros i' o'. unfold updN. destruct (N.eqb_spec i' i) as [->|Hn]; [|apply HI].
+          destruct (Hlz i eq_refl) as [_ Hb]. rewrite <- Hlow in Hb.
+          destruct (D ty r); intros E; inversion E; subst; exact Hb.
+        * unfold cs0. destruct (lazy (threads g t)) as [i|] eqn:El.
+          -- intros i' t2. unfold updN. destruct (N.eqb_spec i' i) as [->|Hn].
+             ++ destruct (D ty r); discriminate.
+             ++ intros Hi. split; [|exact Hi]. intros ->.
+                destruct (inv_ci g HI i' t Hi) as [_ Hl]. rewrite El in Hl. injection Hl as ->. contradiction.
+          -- intros i' t2 Hi. split; [|exact Hi]. intros ->.
+             destruct (inv_ci g HI i' t Hi) as [_ Hl]. rewrite El in Hl. discriminate Hl.
+        * unfold cs0. destruct (lazy (threads g t)) as [i|] eqn:El; [|auto].
+          intros t' i' Hn Hg. unfold updN. destruct (N.eqb_spec i' i) as [->|Hni]; [|exact Hg].
+          destruct (Hlz i eq_refl) as [Hown _]. rewrite Hown in Hg. injection Hg as <-. contradiction.
       + cbn [lower_ok] in Hlow. destruct p' as [| |fb k|o'|o'|ty'' o'|o']; try contradiction.
-        destruct Hlow as (Hrk & Hbk & Hev & Hlow'). subst o. cbn [return_to].
+        destruct Hlow as (Hrk & Hbk & Hev & Hlow'). subst o. cbn [finish].
         destruct (advance_ok fb r' ty' (k (D ty r)) rest' bot (Hbk _) Hev Hlow')
           as (r2 & ty2 & p2 & rest2 & Ea & Ht2 & Hl2 & Hc2).
-        apply Inv_update.
-        * exact HI.
-        * intros t' Hne. apply chain_frame. exact Hne.
-        * rewrite chain_self. unfold thread_ok; cbn [stack todo results]. rewrite Ea.
-          exists bot. rewrite Hc2. cbn [map fref fst rev]. auto.
+        unfold set_thread, set_chain; cbn [chains poisoned cache threads aborted cellst].
+        apply Inv_update_same; try assumption; try reflexivity.
+        * cbn [stack]. apply advance_nonempty.
+        * intros t' Hn. apply chain_frame. exact Hn.
+        * rewrite chain_self. unfold thread_ok; cbn [stack todo results lazy]. rewrite Ea.
+          exists bot. rewrite Hc2. cbn [map fref fst rev]. auto 10.
         * apply HI.
         * apply owners_keep; [exact HI|]. intros x Hcc Ho. rewrite Hst in Ho. cbn [stack].
           apply owns_tail in Ho; [|left; reflexivity].
           destruct fb.
           -- apply owns_advance_rest. apply (owns_tail _ _ _ _ _ Ho). left; reflexivity.
-          -- destruct (N.eq_dec x r') as [->|Hne].
+          -- destruct (N.eq_dec x r') as [->|Hnx].
              ++ apply owns_advance. exact Hcc.
-             ++ apply owns_advance_rest. apply (owns_tail _ _ _ _ _ Ho). right; exact Hne.
+             ++ apply owns_advance_rest. apply (owns_tail _ _ _ _ _ Ho). right; exact Hnx.
+  Qed.
+
+  (* a full cell is never written again: the only writes to a cell are by its initialiser, and a cell that has
+     an initialiser is not full *)
+  Lemma step_keeps_full g t i o :
+    Inv g -> cellst g i = CFull o -> cellst (step c prog cells g t) i = CFull o.
+  Proof.
+    intros HI Hi. unfold step, step_gen. rewrite (inv_ab g HI).
+    destruct (stack (threads g t)) as [|[[r ty] p] rest] eqn:Hst.
+    { unfold start_next. rewrite Hst.
+      destruct (start cells t (todo (threads g t)) (results (threads g t)) (cellst g)) as [th' cs'] eqn:Hs.
+      cbn [set_cells cellst]. exact (start_keeps_full cells t _ _ _ _ _ i o Hs Hi). }
+    pose proof (inv_th g HI t) as Hth. unfold thread_ok in Hth. rewrite Hst in Hth.
+    destruct Hth as (bot & Htop & Hlow & Hres & Hch & Hlz).
+    cbv zeta. rewrite (inv_po g HI).
+    destruct p as [| |fb k|o1|o1|ty' o1|o1]; cbn [pushed top_ok] in Htop, Hch.
+    - rewrite app_nil_r in Hch. rewrite Hch, (not_in_chain _ _ _ _ Hlow). exact Hi.
+    - destruct (cache_on c); [destruct (cache g r) as [[|ty' o1]|]|]; exact Hi.
+    - exact Hi.
+    - exact Hi.
+    - exact Hi.
+    - destruct o1 as [v|e|s0|]; [destruct (ty' =? ty)| | |]; exact Hi.
+    - rewrite Hch, split_last_app, N.eqb_refl.
+      destruct rest as [|[[r' ty'] p'] rest'].
+      + cbn [finish]. unfold top_done. cbn [set_chain threads cellst].
+        destruct (start cells t (todo (threads g t)) (results (threads g t) ++ [o1]) _) as [th' cs'] eqn:Hs.
+        cbn [set_cells cellst]. apply (start_keeps_full cells t _ _ _ _ _ i o Hs).
+        destruct (lazy (threads g t)) as [i'|] eqn:El; [|exact Hi].
+        unfold updN. destruct (N.eqb_spec i i') as [->|Hn]; [|exact Hi].
+        destruct (Hlz i' eq_refl) as [Hown _]. rewrite Hown in Hi. discriminate Hi.
+      + cbn [lower_ok] in Hlow. destruct p' as [| |fb k|o'|o'|ty'' o'|o']; try contradiction.
+        exact Hi.
   Qed.
 
   (** deadlock freedom: a blocked thread waits for an entry whose owner is enabled or itself blocked on a
-      reference of strictly smaller rank *)
+      reference of strictly smaller rank; a thread in front of a lazy cell waits for the cell's initialiser,
+      which is inside the cell's load *)
   Lemma progress g : Inv g ->
     forall m t r ty p rest, stack (threads g t) = (r, ty, p) :: rest -> (rank r < m)%nat ->
     exists t', enabled c g t' = true.
@@ -412,13 +619,24 @@ Section Safe.
       pose proof (lower_rank _ _ _ _ _ Hlow2 Hin). lia.
   Qed.
 
-  Lemma stack_nonempty_lt g t : Inv g -> stack (threads g t) <> [] -> (t < length progs)%nat.
+  Lemma unfinished_lt g t : Inv g -> finished g t = false -> (t < length progs)%nat.
   Proof.
-    intros HI Hne. destruct (Nat.lt_ge_cases t (length progs)) as [H|H]; [exact H|]. exfalso.
+    intros HI Hf. destruct (Nat.lt_ge_cases t (length progs)) as [H|H]; [exact H|]. exfalso.
     pose proof (inv_th g HI t) as Hth. rewrite (nth_overflow _ _ H) in Hth. unfold thread_ok in Hth.
-    destruct (stack (threads g t)) as [|[[r ty] p] rest]; [congruence|].
-    destruct Hth as (bot & _ & _ & Hres & _). cbn [map] in Hres.
-    exact (app_cons_not_nil _ _ _ (eq_sym Hres)).
+    unfold finished in Hf.
+    destruct (stack (threads g t)) as [|[[r ty] p] rest].
+    - destruct Hth as (Hres & _ & _). cbn [map] in Hres.
+      destruct (todo (threads g t)); [discriminate Hf|].
+      apply app_eq_nil in Hres. destruct Hres as [_ Hres]. discriminate Hres.
+    - destruct Hth as (bot & _ & _ & Hres & _). cbn [map] in Hres.
+      exact (app_cons_not_nil _ _ _ (eq_sym Hres)).
+  Qed.
+
+  Lemma enabled_unfinished g t : enabled c g t = true -> finished g t = false.
+  Proof.
+    unfold enabled, finished. intros H. apply andb_prop in H. destruct H as [_ H].
+    destruct (stack (threads g t)); [|reflexivity].
+    destruct (todo (threads g t)); [discriminate H|reflexivity].
   Qed.
 
   Lemma no_deadlock g : Inv g -> deadlocked c g (length progs) = false.
@@ -427,53 +645,57 @@ Section Safe.
     destruct (all_finished g (length progs)) eqn:Haf; [reflexivity|]. cbn [negb andb].
     destruct (first_enabled c g (length progs) 0%nat) eqn:Hfe; [reflexivity|]. exfalso.
     apply all_finished_false in Haf. destruct Haf as (t & Ht & Hf).
-    unfold finished in Hf. destruct (stack (threads g t)) as [|[[r ty] p] rest] eqn:Hst; [discriminate Hf|].
-    destruct (progress g HI (S (rank r)) t r ty p rest Hst (Nat.lt_succ_diag_r _)) as (t' & Hen).
+    assert (Hex : exists t', enabled c g t' = true).
+    { unfold finished in Hf. destruct (stack (threads g t)) as [|[[r ty] p] rest] eqn:Hst.
+      - destruct (todo (threads g t)) as [|[ty r] td] eqn:Htd; [discriminate Hf|].
+        destruct (enabled c g t) eqn:Hen; [exists t; exact Hen|].
+        unfold enabled in Hen. rewrite (inv_ab g HI), Hst, Htd in Hen. cbn [negb andb] in Hen.
+        destruct (ty =? LAZY); [|discriminate Hen].
+        destruct (cellst g r) as [|t2|o] eqn:Ecs; try discriminate Hen.
+        destruct (inv_ci g HI r t2 Ecs) as [Hne _].
+        destruct (stack (threads g t2)) as [|[[r2 ty2] p2] rest2] eqn:Hst2; [contradiction Hne; reflexivity|].
+        exact (progress g HI (S (rank r2)) t2 r2 ty2 p2 rest2 Hst2 (Nat.lt_succ_diag_r _)).
+      - exact (progress g HI (S (rank r)) t r ty p rest Hst (Nat.lt_succ_diag_r _)). }
+    destruct Hex as (t' & Hen).
     assert (Hlt : (t' < length progs)%nat).
-    { apply (stack_nonempty_lt g t' HI). intros E. unfold enabled in Hen. rewrite E in Hen.
-      rewrite andb_false_r in Hen. discriminate Hen. }
+    { apply (unfinished_lt g t' HI). apply enabled_unfinished. exact Hen. }
     rewrite (first_enabled_none c g _ _ Hfe t') in Hen by lia. discriminate Hen.
   Qed.
 
-  Lemma Inv_state_ok g : Inv g -> state_ok c D progs g.
+  Lemma Inv_state_ok g : Inv g -> state_ok c (lazy_seq cells D) progs g.
   Proof.
     intros HI. split; [apply HI|]. split; [apply HI|]. split; [|split].
     - intros t. pose proof (inv_th g HI t) as Hth. unfold thread_ok in Hth.
       destruct (stack (threads g t)) as [|[[r ty] p] rest].
-      + destruct Hth as (_ & Hr & _). exists (length (nth t progs [])). rewrite firstn_all. exact Hr.
+      + destruct Hth as (Hres & _). eexists. exact (map_prefix _ _ _ _ Hres).
       + destruct Hth as (bot & _ & _ & Hres & _). eexists. exact (map_prefix _ _ _ _ Hres).
     - intros t Hf. unfold finished in Hf. pose proof (inv_th g HI t) as Hth. unfold thread_ok in Hth.
-      destruct (stack (threads g t)) as [|[[r ty] p] rest]; [|discriminate Hf]. apply Hth.
+      destruct (stack (threads g t)) as [|[[r ty] p] rest]; [|discriminate Hf].
+      destruct (todo (threads g t)); [|discriminate Hf].
+      destruct Hth as (Hres & _). cbn [map] in Hres. rewrite app_nil_r in Hres. exact Hres.
     - apply no_deadlock. exact HI.
   Qed.
 
-  Lemma init_threads_spec : forall ps s t,
-    init_threads ps s t = init_thread (if (s <=? t)%nat then nth (t - s) ps [] else []).
+  Lemma Inv_raw : Inv (graw progs).
   Proof.
-    induction ps as [|p ps IH]; intros s t; cbn [init_threads].
-    - destruct (s <=? t)%nat; [destruct (t - s)%nat|]; reflexivity.
-    - unfold upd. destruct (Nat.eqb_spec t s) as [E|Hne].
-      + subst t. rewrite Nat.leb_refl, Nat.sub_diag. reflexivity.
-      + rewrite IH. destruct (Nat.leb_spec s t) as [H1|H1]; destruct (Nat.leb_spec (S s) t) as [H2|H2]; try lia.
-        * replace (t - s)%nat with (S (t - S s)) by lia. reflexivity.
-        * reflexivity.
-  Qed.
-
-  Lemma Inv_init : Inv (ginit progs).
-  Proof.
-    unfold ginit. constructor; cbn [aborted poisoned cache threads chains].
+    unfold graw. constructor; cbn [aborted poisoned cache threads chains cellst].
     - reflexivity.
     - reflexivity.
     - intros r ty o H. discriminate H.
-    - intros t. rewrite init_threads_spec. cbn [Nat.leb]. rewrite Nat.sub_0_r.
-      generalize (nth t progs []) as calls. intros [|[ty0 r0] calls];
-        unfold thread_ok, init_thread, next_call; cbn [stack todo results].
-      + auto.
-      + exists (ty0, r0). cbn [top_ok lower_ok pushed map rev app]. auto.
+    - intros t. unfold thread_ok; cbn [stack todo results lazy]. auto.
     - intros r H. discriminate H.
+    - intros i o H. discriminate H.
+    - intros i t H. discriminate H.
   Qed.
 
-  Lemma run_inv sched : forall g, Inv g -> Inv (run_sched c prog g sched).
+  Lemma Inv_init : Inv (ginit cells progs).
+  Proof.
+    unfold ginit. generalize (seq 0 (length progs)) as l. generalize (graw progs) Inv_raw.
+    intros g HI l. revert g HI. induction l as [|t l IH]; intros g HI; cbn [fold_left]; [exact HI|].
+    apply IH. apply start_next_inv. exact HI.
+  Qed.
+
+  Lemma run_inv sched : forall g, Inv g -> Inv (run_sched c prog cells g sched).
   Proof.
     unfold run_sched. induction sched as [|t sched IH]; intros g HI; cbn [fold_left]; [exact HI|].
     apply IH. apply step_inv. exact HI.
@@ -548,8 +770,11 @@ Section Safe.
     | (r, ty, p) :: rest => (top_meas p r ty + lmeas r ty rest)%nat
     end.
 
-  Definition tmeas (th : thread) : nat :=
-    (smeas (stack th) + list_sum (map (fun cl => cost (fst cl) (snd cl)) (todo th)))%nat.
+  (* a program item still to do: one step to start it (or to pass a full cell) + the steps of its get *)
+  Definition icost (cl : tcall) : nat :=
+    if fst cl =? LAZY then S (cost (fst (cells (snd cl))) (snd (cells (snd cl)))) else S (cost (fst cl) (snd cl)).
+
+  Definition tmeas (th : thread) : nat := (smeas (stack th) + list_sum (map icost (todo th)))%nat.
 
   Lemma advance_meas fb r ty p rest :
     (smeas (advance c fb r ty p rest) <= tailw fb + pcost p + lmeas r ty rest)%nat.
@@ -559,15 +784,47 @@ Section Safe.
     - cbn [top_meas lmeas pcostn]. lia.
   Qed.
 
+  (* [start] never adds work, and removes some unless the thread stops in front of a cell being initialised *)
+  Lemma start_meas t : forall td res cs th' cs',
+    start cells t td res cs = (th', cs') ->
+    (tmeas th' <= list_sum (map icost td))%nat /\
+    (match td with
+     | [] => False
+     | (ty, r) :: _ => if ty =? LAZY then match cs r with CInit _ => False | _ => True end else True
+     end -> (tmeas th' < list_sum (map icost td))%nat).
+  Proof.
+    induction td as [|[ty r] rest IH]; intros res cs th' cs' Hs; cbn [start] in Hs.
+    - inversion Hs; subst. unfold tmeas; cbn [stack todo smeas map list_sum fold_right]. split; [lia|tauto].
+    - cbn [map list_sum fold_right]. unfold icost at 1 3. cbn [fst snd].
+      destruct (ty =? LAZY) eqn:Ety.
+      + destruct (cs r) as [|t2|o] eqn:Ecs.
+        * inversion Hs; subst. unfold tmeas; cbn [stack todo smeas top_meas lmeas].
+          fold (list_sum (map icost rest)). split; [lia|intros _; lia].
+        * inversion Hs; subst. unfold tmeas; cbn [stack todo smeas map list_sum fold_right].
+          unfold icost at 1. cbn [fst snd]. rewrite Ety. fold (list_sum (map icost rest)). split; [lia|tauto].
+        * destruct (IH (res ++ [o]) cs th' cs' Hs) as [Hle _].
+          fold (list_sum (map icost rest)). split; [lia|intros _; lia].
+      + inversion Hs; subst. unfold tmeas; cbn [stack todo smeas top_meas lmeas].
+        fold (list_sum (map icost rest)). split; [lia|intros _; lia].
+  Qed.
+
   Lemma step_meas g t : Inv g -> enabled c g t = true ->
-    exists th', threads (step c prog g t) = upd (threads g) t th' /\
+    exists th', threads (step c prog cells g t) = upd (threads g) t th' /\
                 (tmeas th' < tmeas (threads g t))%nat.
   Proof.
     intros HI Hen. unfold enabled in Hen. rewrite (inv_ab g HI) in Hen. cbn [negb andb] in Hen.
     unfold step, step_gen. rewrite (inv_ab g HI).
-    destruct (stack (threads g t)) as [|[[r ty] p] rest] eqn:Hst; [discriminate Hen|].
+    destruct (stack (threads g t)) as [|[[r ty] p] rest] eqn:Hst.
+    { (* in front of a lazy cell that is not being initialised (or not started yet) *)
+      unfold start_next. rewrite Hst.
+      destruct (start cells t (todo (threads g t)) (results (threads g t)) (cellst g)) as [th' cs'] eqn:Hs.
+      exists th'. split; [reflexivity|].
+      destruct (start_meas t _ _ _ _ _ Hs) as [_ Hlt].
+      unfold tmeas at 2. rewrite Hst. cbn [smeas]. apply Hlt.
+      destruct (todo (threads g t)) as [|[ty r] td]; [discriminate Hen|].
+      destruct (ty =? LAZY); [|exact I]. destruct (cellst g r); [exact I|discriminate Hen|exact I]. }
     pose proof (inv_th g HI t) as Hth. unfold thread_ok in Hth. rewrite Hst in Hth.
-    destruct Hth as (bot & Htop & Hlow & Hres & Hch).
+    destruct Hth as (bot & Htop & Hlow & Hres & Hch & _).
     cbv zeta. rewrite (inv_po g HI).
     unfold tmeas at 2. rewrite Hst.
     pose proof (advance_meas false r ty (prog ty r) rest) as Hadv.
@@ -587,13 +844,13 @@ Section Safe.
     - destruct o as [v|e|s|]; [destruct (ty' =? ty)| | |]; (eexists; split; [reflexivity|]);
         unfold tmeas; cbn [stack todo smeas top_meas]; lia.
     - rewrite Hch, split_last_app, N.eqb_refl.
-      eexists. split; [reflexivity|].
       destruct rest as [|[[r' ty'] p'] rest'].
-      + cbn [return_to].
-        destruct (todo (threads g t)) as [|[ty1 r1] todo'] eqn:Htd;
-          unfold next_call, tmeas; cbn [stack todo results smeas top_meas lmeas map list_sum fold_right fst snd]; lia.
+      + cbn [finish]. unfold top_done. cbn [set_chain threads cellst].
+        destruct (start cells t (todo (threads g t)) (results (threads g t) ++ [o]) _) as [th' cs'] eqn:Hs.
+        exists th'. split; [reflexivity|].
+        destruct (start_meas t _ _ _ _ _ Hs) as [Hle _]. cbn [lmeas]. lia.
       + cbn [lower_ok] in Hlow. destruct p' as [| |fb k|o'|o'|ty'' o'|o']; try contradiction.
-        subst o. cbn [return_to]. unfold tmeas; cbn [stack todo lmeas].
+        subst o. cbn [finish]. eexists. split; [reflexivity|]. unfold tmeas; cbn [stack todo lmeas].
         pose proof (advance_meas fb r' ty' (k (D ty r)) rest'). lia.
   Qed.
 
@@ -627,13 +884,12 @@ Section Safe.
     exact (IH _ _ H).
   Qed.
 
-  Lemma enabled_decr g t : Inv g -> enabled c g t = true -> (gmeas (step c prog g t) < gmeas g)%nat.
+  Lemma enabled_decr g t : Inv g -> enabled c g t = true -> (gmeas (step c prog cells g t) < gmeas g)%nat.
   Proof.
     intros HI Hen. destruct (step_meas g t HI Hen) as (th' & Eth & Hlt).
     unfold gmeas. rewrite Eth.
     assert (Ht : (t < length progs)%nat).
-    { apply (stack_nonempty_lt g t HI). intros E. unfold enabled in Hen. rewrite E in Hen.
-      rewrite andb_false_r in Hen. discriminate Hen. }
+    { apply (unfinished_lt g t HI). apply enabled_unfinished. exact Hen. }
     assert (Hext : forall f f' n, (forall t', f t' = f' t') -> musum f n = musum f' n).
     { intros f f' n Hf. induction n as [|n IH]; cbn [musum]; [reflexivity|]. rewrite IH, Hf. reflexivity. }
     rewrite (Hext _ (upd (fun t0 => tmeas (threads g t0)) t (tmeas th'))).
@@ -650,7 +906,7 @@ Section Safe.
   Qed.
 
   Lemma complete_finishes : forall fuel g, Inv g -> (gmeas g <= fuel)%nat ->
-    all_finished (complete c prog fuel (length progs) g) (length progs) = true.
+    all_finished (complete c prog cells fuel (length progs) g) (length progs) = true.
   Proof.
     induction fuel as [|fuel IH]; intros g HI Hm; cbn [complete].
     - destruct (first_enabled c g (length progs) 0%nat) as [t|] eqn:Hfe;
@@ -663,45 +919,49 @@ Section Safe.
   Qed.
 End Safe.
 
-Theorem conc_per_thread_chain : forall c prog rank,
-  per_thread c = true -> acyclic prog rank -> conc_statement c prog (D prog rank).
+Theorem conc_per_thread_chain : forall c prog cells rank,
+  per_thread c = true -> acyclic prog rank -> conc_statement c prog cells (lazy_seq cells (D prog rank)).
 Proof.
-  intros c prog rank Hpt Hac progs sched.
-  apply (Inv_state_ok c prog rank progs).
-  apply (run_inv c prog rank Hpt Hac progs).
+  intros c prog cells rank Hpt Hac progs sched.
+  apply (Inv_state_ok c prog cells rank progs).
+  apply (run_inv c prog cells rank Hpt Hac progs).
   apply Inv_init.
 Qed.
 
-Theorem conc_complete_is_sched : forall c prog fuel n g,
-  exists sched, complete c prog fuel n g = run_sched c prog g sched.
+Theorem conc_complete_is_sched : forall c prog cells fuel n g,
+  exists sched, complete c prog cells fuel n g = run_sched c prog cells g sched.
 Proof.
-  intros c prog. induction fuel as [|fuel IH]; intros n g; cbn [complete].
+  intros c prog cells. induction fuel as [|fuel IH]; intros n g; cbn [complete].
   - exists []. reflexivity.
   - destruct (first_enabled c g n 0%nat) as [t|].
-    + destruct (IH n (step c prog g t)) as (sched & Hs). exists (t :: sched). exact Hs.
+    + destruct (IH n (step c prog cells g t)) as (sched & Hs). exists (t :: sched). exact Hs.
     + exists []. reflexivity.
 Qed.
 
-Corollary conc_per_thread_complete : forall c prog rank progs sched fuel,
+Corollary conc_per_thread_complete : forall c prog cells rank progs sched fuel,
   per_thread c = true -> acyclic prog rank ->
-  state_ok c (D prog rank) progs
-           (complete c prog fuel (length progs) (run_sched c prog (ginit progs) sched)).
+  state_ok c (lazy_seq cells (D prog rank)) progs
+           (complete c prog cells fuel (length progs) (run_sched c prog cells (ginit cells progs) sched)).
 Proof.
-  intros c prog rank progs sched fuel Hpt Hac.
-  destruct (conc_complete_is_sched c prog fuel (length progs) (run_sched c prog (ginit progs) sched))
-    as (sched' & Hs).
+  intros c prog cells rank progs sched fuel Hpt Hac.
+  destruct (conc_complete_is_sched c prog cells fuel (length progs)
+                                   (run_sched c prog cells (ginit cells progs) sched)) as (sched' & Hs).
   rewrite Hs. unfold run_sched. rewrite <- fold_left_app.
-  apply (conc_per_thread_chain c prog rank Hpt Hac progs (sched ++ sched')).
+  apply (conc_per_thread_chain c prog cells rank Hpt Hac progs (sched ++ sched')).
 Qed.
 
 Definition conc_full_statement : Prop :=
-  forall c prog fuel, conc_statement c prog (fun ty r => fst (get no_cache prog fuel [] ty r init)).
+  forall c prog cells fuel,
+    conc_statement c prog cells (lazy_seq cells (fun ty r => fst (get no_cache prog fuel [] ty r init))).
+
+(* the refutations below need no lazy cells *)
+Definition no_cells : N -> tcall := fun _ => (0, 0).
 
 (** * refutations (C13-a: guard stack shared by all threads; C13-b: cyclic eager references) *)
 
 Theorem conc_refuted_shared_chain : exists prog progs sched,
   let c := mkCcfg true false false in
-  let g := complete c prog 100 (length progs) (run_sched c prog (ginit progs) sched) in
+  let g := complete c prog no_cells 100 (length progs) (run_sched c prog no_cells (ginit no_cells progs) sched) in
   results (threads g 1%nat) = [Err E_OTHER] /\
   (forall fuel, fst (get no_cache prog (S fuel) [] 0 1 init) = Ok 5).
 Proof.
@@ -711,7 +971,7 @@ Qed.
 
 Theorem conc_refuted_pop_assert : exists prog progs sched,
   let c := mkCcfg true false false in
-  let g := complete c prog 100 (length progs) (run_sched c prog (ginit progs) sched) in
+  let g := complete c prog no_cells 100 (length progs) (run_sched c prog no_cells (ginit no_cells progs) sched) in
   poisoned g 0 = true /\ results (threads g 0%nat) = [Panic 1] /\ results (threads g 1%nat) = [Panic 1].
 Proof.
   exists (fun _ _ => Ret (Ok 5)), [[(0, 1)];[(0, 2)]], [0%nat; 1%nat; 0%nat; 0%nat; 0%nat].
@@ -720,7 +980,7 @@ Qed.
 
 Theorem conc_refuted_abort : exists prog progs sched,
   let c := mkCcfg true false false in
-  aborted (complete c prog 100 (length progs) (run_sched c prog (ginit progs) sched)) = true.
+  aborted (complete c prog no_cells 100 (length progs) (run_sched c prog no_cells (ginit no_cells progs) sched)) = true.
 Proof.
   exists (fun _ r => if r =? 1 then Call 0 2 (fun o => Ret o) else Ret (Ok 5)), [[(0, 1)];[(0, 3)]],
          [0%nat; 0%nat; 0%nat; 1%nat; 0%nat].
@@ -729,7 +989,7 @@ Qed.
 
 Theorem conc_cyclic_deadlock : exists prog progs sched,
   let c := mkCcfg true true true in
-  deadlocked c (complete c prog 100 (length progs) (run_sched c prog (ginit progs) sched)) (length progs) = true.
+  deadlocked c (complete c prog no_cells 100 (length progs) (run_sched c prog no_cells (ginit no_cells progs) sched)) (length progs) = true.
 Proof.
   exists (fun _ r => if r =? 1 then Call 0 2 (fun o => Ret o)
                      else if r =? 2 then Call 0 1 (fun o => Ret o) else Ret (Ok 5)),
@@ -740,20 +1000,39 @@ Qed.
 Theorem conc_full_refuted : ~ conc_full_statement.
 Proof.
   intros H.
-  specialize (H (mkCcfg true false false) (fun _ _ => Ret (Ok 5)) 1%nat [[(0, 1)];[(0, 1)]] [0%nat; 1%nat]).
+  specialize (H (mkCcfg true false false) (fun _ _ => Ret (Ok 5)) no_cells 1%nat [[(0, 1)];[(0, 1)]] [0%nat; 1%nat]).
   destruct H as (_ & _ & Hp & _). specialize (Hp 1%nat). destruct Hp as (k & Hk).
   vm_compute in Hk. destruct k as [|k]; [discriminate Hk|].
   destruct k; discriminate Hk.
 Qed.
 
 (** every run of the fixed code on an acyclic document terminates with all threads finished *)
-Theorem conc_terminates : forall c prog rank progs sched,
+Theorem conc_terminates : forall c prog cells rank progs sched,
   per_thread c = true -> acyclic prog rank ->
-  exists fuel, all_finished (complete c prog fuel (length progs) (run_sched c prog (ginit progs) sched))
-                            (length progs) = true.
+  exists fuel, all_finished (complete c prog cells fuel (length progs)
+                                      (run_sched c prog cells (ginit cells progs) sched)) (length progs) = true.
 Proof.
-  intros c prog rank progs sched Hpt Hac.
-  exists (gmeas prog rank progs (run_sched c prog (ginit progs) sched)).
-  apply (complete_finishes c prog rank Hpt Hac progs); [|apply Nat.le_refl].
-  apply (run_inv c prog rank Hpt Hac progs). apply Inv_init.
+  intros c prog cells rank progs sched Hpt Hac.
+  exists (gmeas prog cells rank progs (run_sched c prog cells (ginit cells progs) sched)).
+  apply (complete_finishes c prog cells rank Hpt Hac progs); [|apply Nat.le_refl].
+  apply (run_inv c prog cells rank Hpt Hac progs). apply Inv_init.
+Qed.
+
+(** the once-cell protocol under every schedule: a value that has been published into a lazy cell is the
+    sequential answer of the reference the cell holds, and the cell is never written again (exactly one
+    publication per cell; concurrent initialisers are serialised; later loads clone the published value) *)
+Theorem conc_cell_once : forall c prog cells rank progs sched1 sched2 i o,
+  per_thread c = true -> acyclic prog rank ->
+  let g1 := run_sched c prog cells (ginit cells progs) sched1 in
+  cellst g1 i = CFull o ->
+  o = D prog rank (fst (cells i)) (snd (cells i)) /\
+  cellst (run_sched c prog cells g1 sched2) i = CFull o.
+Proof.
+  intros c prog cells rank progs sched1 sched2 i o Hpt Hac g1 Hi.
+  assert (HI : Inv c prog cells rank progs g1).
+  { apply (run_inv c prog cells rank Hpt Hac progs). apply Inv_init. }
+  split; [exact (inv_cf c prog cells rank progs g1 HI i o Hi)|].
+  clearbody g1. revert g1 HI Hi. unfold run_sched.
+  induction sched2 as [|t sched2 IH]; intros g1 HI Hi; cbn [fold_left]; [exact Hi|].
+  apply IH; [apply step_inv; assumption|apply (step_keeps_full c prog cells rank progs); assumption].
 Qed.
